@@ -388,7 +388,9 @@ func (m *C08) OnStep(_ explore.Ghost, st *explore.Step) []V {
 			roleOK = bytes.Equal(c.Admin, signer)
 			ck = c.Key
 		}
-		allow = func(d rowDiff) bool { return d.Table == "ClassIssuers" && strings.HasPrefix(d.ID, fmt.Sprintf("%d/", ck)) }
+		allow = func(d rowDiff) bool {
+			return d.Table == "ClassIssuers" && strings.HasPrefix(d.ID, fmt.Sprintf("%d/", ck))
+		}
 	case *basetypes.MsgUpdateProjectAdmin:
 		role = "project admin"
 		if p := pre.ProjectByID(msg.ProjectId); p != nil {
@@ -412,9 +414,13 @@ func (m *C08) OnStep(_ explore.Ghost, st *explore.Step) []V {
 	case *basetypes.MsgUpdateClassFee:
 		gov(inTable("ClassFee"))
 	case *basetypes.MsgAddAllowedBridgeChain:
-		gov(func(d rowDiff) bool { return d.Table == "BridgeChains" && d.ID == strings.ToLower(msg.ChainName) && isNew(d) })
+		gov(func(d rowDiff) bool {
+			return d.Table == "BridgeChains" && d.ID == strings.ToLower(msg.ChainName) && isNew(d)
+		})
 	case *basetypes.MsgRemoveAllowedBridgeChain:
-		gov(func(d rowDiff) bool { return d.Table == "BridgeChains" && d.ID == strings.ToLower(msg.ChainName) && d.Post == nil })
+		gov(func(d rowDiff) bool {
+			return d.Table == "BridgeChains" && d.ID == strings.ToLower(msg.ChainName) && d.Post == nil
+		})
 	case *basetypes.MsgCreateUnregisteredProject, *basetypes.MsgCreateOrUpdateApplication, *basetypes.MsgUpdateProjectEnrollment, *basetypes.MsgUpdateProjectFee:
 		unimplemented = true
 	case *baskettypes.MsgUpdateCurator:
